@@ -221,6 +221,10 @@ type PubSpec struct {
 	LeaveAt   int    `json:"leave_at,omitempty"` // 0: after every target is established; 1: right after the first round of attempts
 	Intruder  bool   `json:"intruder,omitempty"` // a second publisher is offered (and refused) while this one is accepted
 	Ticks     int    `json:"ticks,omitempty"`    // extra ticks once established and once gone
+	// HandOver: attempts that a target still holds unanswered when this publisher leaves stay unanswered until the NEXT
+	// publisher has been accepted (and HandOverTicks ticks have passed); only then the target answers publish.
+	HandOver      bool `json:"hand_over,omitempty"`
+	HandOverTicks int  `json:"hand_over_ticks,omitempty"`
 }
 
 type PushCase struct {
@@ -252,12 +256,12 @@ func genPushCase(t *rapid.T) PushCase {
 	nt := rapid.SampledFrom([]int{1, 1, 2, 2, 3}).Draw(t, "ntargets")
 	for i := 0; i < nt; i++ {
 		tg := Target{Refuse: rapid.SampledFrom([]int{0, 0, 0, 1, 1, 2}).Draw(t, "refuse")}
-		if tg.Refuse == 0 && rapid.IntRange(0, 7).Draw(t, "hold") == 0 {
+		if tg.Refuse == 0 && rapid.IntRange(0, 3).Draw(t, "hold") == 0 {
 			tg.Hold = true
 		}
 		c.Targets = append(c.Targets, tg)
 	}
-	np := rapid.SampledFrom([]int{1, 1, 1, 2}).Draw(t, "npubs")
+	np := rapid.SampledFrom([]int{1, 1, 2, 2, 2, 3}).Draw(t, "npubs")
 	for i := 0; i < np; i++ {
 		p := PubSpec{Kind: rapid.SampledFrom([]string{"rtmp", "rtmp", "rtmp", "rtsp"}).Draw(t, "pubKind")}
 		if p.Kind == "rtmp" {
@@ -267,6 +271,10 @@ func genPushCase(t *rapid.T) PushCase {
 		p.LeaveAt = rapid.SampledFrom([]int{0, 0, 0, 1}).Draw(t, "leaveAt")
 		p.Intruder = rapid.IntRange(0, 4).Draw(t, "intruder") == 0
 		p.Ticks = rapid.IntRange(0, 3).Draw(t, "ticks")
+		if i+1 < np && rapid.Bool().Draw(t, "handOver") {
+			p.HandOver = true
+			p.HandOverTicks = rapid.IntRange(0, 3).Draw(t, "handOverTicks")
+		}
 		c.Pubs = append(c.Pubs, p)
 	}
 	return c
@@ -303,6 +311,7 @@ type pushTarget struct {
 	established bool
 	held        bool
 	expected    int // connections the rules demand so far
+	allow       int // retries a first-round tick of the harness may have caused and nobody has consumed yet
 }
 
 type pushWorld struct {
@@ -375,6 +384,9 @@ func (w *pushWorld) incoming(ti int, t *pushTarget, c *stub.Conn, wantName strin
 		return pbt.V("push/duplicate-session", "publisher %d, target %d: a second push connection arrived while the first session is %s", pi, ti, map[bool]string{true: "established", false: "being set up"}[t.established])
 	}
 	t.expected++
+	if t.allow > 0 {
+		t.allow--
+	}
 	if t.refuseLeft > 0 {
 		t.refuseLeft--
 		c.Close()
@@ -500,18 +512,76 @@ func runPush0(c PushCase) *pbt.Violation {
 			_ = rtspConn.SetReadDeadline(time.Time{})
 			rtspConn.WaitPeerIdle(lalclient.IdleTimeout)
 		}
-		// ---- first round: one attempt per target, without any tick -------------------------------------
+		// ---- first round: one attempt per target - unless an attempt started under the previous publisher is still
+		// unanswered at the target: then that one is the target's session and no second connection may appear --------
+		var carried []int
 		for ti, t := range w.targets {
+			if t.live != nil {
+				carried = append(carried, ti)
+				continue
+			}
 			pt := newPatience(0)
-			cn := acceptPatient(t.st, pt)
-			if cn == nil {
-				if v := s.PanicViolation(); v != nil {
-					return v
+			var cn *stub.Conn
+			for cn == nil {
+				if cn = t.st.TryAccept(); cn != nil {
+					break
 				}
-				return pt.verdict(pbt.V("push/no-session-for-target", "publisher %d (%s) was accepted but target %d saw no push connection within %v", pi, ps.Kind, ti, pt.waited()))
+				if pt.over() {
+					if v := s.PanicViolation(); v != nil {
+						return v
+					}
+					return pt.verdict(pbt.V("push/no-session-for-target", "publisher %d (%s) was accepted but target %d saw no push connection within %v", pi, ps.Kind, ti, pt.waited()))
+				}
+				if pi > 0 && time.Since(pt.start) > 20*time.Millisecond {
+					// lal clears a target's in-progress mark only when the previous session's goroutine has finished; a
+					// publisher that arrives before that is served "on a later tick"
+					w.doTick()
+					for _, o := range w.targets[:ti] {
+						if o.live == nil {
+							o.allow++ // a target that has refused its first attempt may be re-attempted on this tick
+						}
+					}
+				}
+				time.Sleep(300 * time.Microsecond)
 			}
 			if v := w.incoming(ti, t, cn, wantName, pi); v != nil {
 				return v
+			}
+		}
+		if len(carried) > 0 {
+			for i := 0; i < c.Pubs[pi-1].HandOverTicks; i++ {
+				w.doTick()
+				for _, o := range w.targets {
+					if o.live == nil {
+						o.allow++ // a target that has refused its first attempt may be re-attempted on this tick
+					}
+				}
+			}
+			time.Sleep(3 * time.Millisecond)
+			for _, ti := range carried {
+				t := w.targets[ti]
+				if cn := t.st.TryAccept(); cn != nil {
+					if !t.live.WaitPeerClose(2 * time.Millisecond) {
+						return pbt.V("push/duplicate-session", "publisher %d was accepted (then %d ticks) while target %d still holds the unanswered push attempt started under publisher %d: lal opened a second connection to the target", pi, c.Pubs[pi-1].HandOverTicks, ti, pi-1)
+					}
+					// lal gave the old attempt up (its own push timeout): the new connection is the target's session
+					pbt.Count("push/held-attempt-timed-out", 1)
+					t.live.Close()
+					t.live, t.held = nil, true
+					if v := w.incoming(ti, t, cn, wantName, pi); v != nil {
+						return v
+					}
+					continue
+				}
+				// the target answers now; lal may attach the session (it then serves this publisher) or drop it and
+				// dial again on a later tick - either way one session per target
+				if err := t.live.AcceptPublish(); err != nil {
+					t.live.Close()
+					t.live, t.held = nil, true
+					continue
+				}
+				t.established = true
+				go t.live.CollectMedia()
 			}
 		}
 		if ps.Intruder && pub != nil {
@@ -522,7 +592,19 @@ func runPush0(c PushCase) *pbt.Violation {
 			in.Close()
 		}
 		// ---- refused targets are re-attempted on later ticks ----------------------------------------------
-		if ps.LeaveAt == 0 {
+		reap := func() bool { // sessions lal has closed although the publisher is there: the target counts as failed again
+			any := false
+			for _, t := range w.targets {
+				if t.established && t.live != nil && t.live.PeerClosed() {
+					t.live.Close()
+					t.live, t.established = nil, false
+					any = true
+				}
+			}
+			return any
+		}
+		for ps.LeaveAt == 0 {
+			reap()
 			pt := newPatience(0)
 			for len(w.pending()) > 0 {
 				w.doTick()
@@ -558,7 +640,19 @@ func runPush0(c PushCase) *pbt.Violation {
 			}
 			if g := s.SM.GetGroup("", w.name); g != nil {
 				pt = newPatience(0)
-				if !patient(pt, func() bool { return g.OutSessionNum() == nEst }) {
+				closed := func() bool {
+					for _, t := range w.targets {
+						if t.established && t.live != nil && t.live.PeerClosed() {
+							return true
+						}
+					}
+					return false
+				}
+				ok := patient(pt, func() bool { return closed() || g.OutSessionNum() == nEst })
+				if closed() {
+					continue // back to the retry loop
+				}
+				if !ok {
 					return pt.verdict(pbt.V("push/session-count-differs", "publisher %d: %d of %d targets answered publish, but %v later lal counts %d push sessions on the stream", pi, nEst, len(w.targets), pt.waited(), g.OutSessionNum()))
 				}
 			}
@@ -619,6 +713,7 @@ func runPush0(c PushCase) *pbt.Violation {
 					}
 				}
 			}
+			break
 		}
 		// ---- the publisher leaves: every session ends with it -----------------------------------------
 		if pub != nil {
@@ -631,6 +726,9 @@ func runPush0(c PushCase) *pbt.Violation {
 		for ti, t := range w.targets {
 			if t.live == nil {
 				continue
+			}
+			if t.held && !t.established && ps.HandOver && pi+1 < len(c.Pubs) {
+				continue // stays unanswered until the next publisher has been accepted
 			}
 			if t.held && !t.established {
 				// the target answers publish only now: the session must not outlive the publisher
@@ -663,6 +761,18 @@ func runPush0(c PushCase) *pbt.Violation {
 		}
 		time.Sleep(3 * time.Millisecond)
 		for ti, t := range w.targets {
+			// retries caused by first-round ticks that nobody has consumed: refuse them, so that they are not taken for
+			// attempts of the next publisher
+			for t.live == nil && t.allow > 0 {
+				cn := t.st.TryAccept()
+				if cn == nil {
+					break
+				}
+				cn.Close()
+				t.allow--
+				t.expected++
+			}
+			t.allow = 0
 			if n := t.st.Attempts(); n != t.expected {
 				sig := "push/attempt-without-publisher"
 				if n < t.expected {
@@ -708,8 +818,12 @@ func classifyPush(c PushCase) (bool, []string) {
 			labels = append(labels, "target-answers-after-publisher-left")
 		}
 	}
+	anyHold := false
+	for _, t := range c.Targets {
+		anyHold = anyHold || t.Hold
+	}
 	if len(c.Pubs) > 1 {
-		labels = append(labels, "two-incarnations")
+		labels = append(labels, fmt.Sprintf("incarnations:%d", len(c.Pubs)))
 	}
 	for _, p := range c.Pubs {
 		labels = append(labels, "pub:"+p.Kind)
@@ -718,6 +832,10 @@ func classifyPush(c PushCase) (bool, []string) {
 			if p.ParamLen > 200 {
 				nt = true
 			}
+		}
+		if p.HandOver && anyHold {
+			labels = append(labels, "held-attempt-answered-under-next-publisher")
+			nt = true
 		}
 		if p.LeaveAt == 1 {
 			labels = append(labels, "publisher-leaves-before-retry")
